@@ -151,8 +151,20 @@ def run_verus_unit(unit, tier, seed, prop):
     for it in meta["items"]:
         if it["kind"] != "fn":
             continue
-        cands = [k for k in fnres if k.split("::")[-1] == it.get("emitted_name", it["name"])]
-        n_obl = sum(v for k, v in airc.items() if k.split("::")[-1] == it.get("emitted_name", it["name"]))
+        ename = it.get("emitted_name", it["name"])
+        # the type a method belongs to (`impl X/fn f`, `impl T for X/fn f`): several impls of one unit may have a method of the
+        # same name (`write` of the two transports and of Connection), so match `X::f` where the verifier reports it that way
+        m_ty = re.match(r"impl (?:.* for )?(\w+)(?:#\d+)?/fn ", it["path"])
+        ty = m_ty.group(1) if m_ty else None
+        def _sel(keys):
+            ks = [k for k in keys if k.split("::")[-1] == ename]
+            if ty:
+                kt = [k for k in ks if len(k.split("::")) >= 2 and k.split("::")[-2] == ty]
+                if kt:
+                    return kt
+            return ks
+        cands = _sel(fnres)
+        n_obl = sum(airc[k] for k in _sel(airc))
         per_fn.append({"id": it["id"], "path": it["path"], "file": it["file"], "line": it["line"], "sha256": it["sha256"],
                        "trusted": it["trusted"], "tags": it["tags"],
                        "smt_ms": sum(fnres[k]["ms"] or 0 for k in cands), "rlimit": sum(fnres[k]["rlimit"] or 0 for k in cands),
